@@ -37,6 +37,9 @@ struct Checker {
     return false;
   }
 
+  // number of operations of other threads that overlap operation i (neither precedes the other)
+  std::vector<int> overlaps;
+
   // returns true if the complete history is linearizable w.r.t. `init`
   bool check(const Spec& init) {
     n = xmc::history_size();
@@ -48,6 +51,13 @@ struct Checker {
       if (!ev[i].done) xmc::fail("ENGINE", "pending operation in final history");
       for (int j = 0; j < n; j++)
         if (i != j && xmc::precedes(ev[j], ev[i])) pred[i] |= 1u << j;
+    }
+    // specs that grant slack per overlapping operation read the count from Event::res_vc[MAXT-1] (unused slot)
+    for (int i = 0; i < n; i++) {
+      int k = 0;
+      for (int j = 0; j < n; j++)
+        if (i != j && ev[i].tid != ev[j].tid && !xmc::precedes(ev[j], ev[i]) && !xmc::precedes(ev[i], ev[j])) k++;
+      ev[i].res_vc[xmc::MAXT - 1] = (uint32_t)k;
     }
     return dfs(0, init);
   }
